@@ -27,7 +27,9 @@ ANNOTATIONS = ["int", "float", "str", "bool", "bytes", "Decimal", "date", "datet
                "List[int]", "Set[int]", "FrozenSet[str]", "Tuple[int, str]", "Tuple[int, ...]", "Dict[str, int]", "Dict[int, List[int]]",
                "Optional[int]", "Union[int, str]", "Union[List[int], Dict[str, int]]", "PosInt", "ShortStr", "Digits", "LaxInt", "Sub",
                "List[Sub]", "Optional[datetime]", "Union[date, int]", "OneOfIS", "NotInt", "IntAndPos", "Deque[int]", "Literal[1, 'a']",
-               "Sequence[int]", "Mapping[str, int]", "Iterable[int]", "Any", "HasInt", "HasFloat", "DecGe"]
+               "Sequence[int]", "Mapping[str, int]", "Iterable[int]", "Any", "HasInt", "HasFloat", "DecGe",
+               # a union resolved by a discriminator key (a Field option: used on the data class fields only)
+               ("Union[DA, DB]", " = Field(discriminator='kind')")]
 
 PRELUDE = '''
 import utype, decimal, datetime, enum, uuid, typing, collections
@@ -63,6 +65,12 @@ class DecGe(Decimal, Rule):
 class Sub(Schema):
     a: int
     b: List[int] = Field(default_factory=list)
+class DA(Schema):
+    kind: Literal['a']
+    a: int = 0
+class DB(Schema):
+    kind: Literal['b']
+    b: int = 0
 OneOfIS = Rule.one_of(PosInt, ShortStr)
 NotInt = ~Rule.annotate(int)
 IntAndPos = Rule.all_of(int, PosInt)
@@ -71,12 +79,12 @@ STATE = {'body': 0, 'created': 0}
 
 DECL = '''
 class C(Schema):
-    x: {ann}
+    x: {ann}{fld}
     def __validate__(self):
         STATE['created'] += 1
 class CO(Schema):
     __options__ = Options(collect_errors=True, addition=False)
-    x: {ann}
+    x: {ann}{fld}
     y: int = 0
     def __validate__(self):
         STATE['created'] += 1
@@ -141,6 +149,7 @@ def hostile(rng):
         ("[None]", [None]), ("[[]]", [[]]), ("[{}]", [{}]), ("{'x'}", {"x"}), ("{1,'x',None}", {1, "x", None}), ("frozenset", frozenset({"a", 2})),
         ("deque", collections.deque(["x", 1])), ("deep-list", deep), ("deep-dict", deepd), ("cyclic-list", cyc_l), ("cyclic-dict", cyc_d),
         ("{1: 2}", {1: 2}), ("{None: 1}", {None: 1}), ("{(1,2): 3}", {(1, 2): 3}), ("{'a': {1: [object]}}", {"a": {1: [Plain()]}}), ("{'a': 'x', 'zz': 1}", {"a": "x", "zz": 1}),
+        ("{'kind': []}", {"kind": []}), ("{'kind': {}}", {"kind": {}}), ("{'kind': 'a', 'a': 'x'}", {"kind": "a", "a": "x"}), ("{'kind': 'b'}", {"kind": "b"}),
         ("[1, 'x', None]", [1, "x", None]), ("(1,)", (1,)), ("(1, 'a', 3)", (1, "a", 3)), ("('x', 1)", ("x", 1)), ("iter", "ITER"), ("gen", "GEN"), ("range", range(3)),
         ("object", Plain()), ("class", Plain), ("weird", Weird()), ("lambda", len), ("type", int), ("Ellipsis", Ellipsis), ("NotImplemented", NotImplemented),
         ("'[1, 2'", "[1, 2"), ("'{\"a\":'", '{"a":'), ("'(1,'", "(1,"), ("'{1, 2}'", "{1, 2}"), ("'__import__(\"os\")'", "__import__('os')"), ("'a=1&a=2'", "a=1&a=2"),
@@ -242,10 +251,11 @@ def main():
     anns = ANNOTATIONS if thorough else ANNOTATIONS
     hv = hostile(rng)
     for ann in anns:
+        ann, fld = ann if isinstance(ann, tuple) else (ann, "")
         ns = {}
         try:
             exec(PRELUDE, ns)
-            exec(DECL.format(ann=ann), ns)
+            exec(DECL.format(ann=ann, fld=fld), ns)
         except Exception as e:
             ck.count("not_judged: declaration refused")
             ck.note("declaration refused for %s: %s" % (ann, str(e)[:80]))
